@@ -87,4 +87,19 @@ TEXTS = {
         "level_text": "For 20 twin pairs and 3 error/warning companions, content is generated so both members see the same thing; whenever the reference lifecycle shows both bodies executed, statuses must agree (finding vs no finding across different severities; error => finding for companions).",
         "level_note": "A pair member that disappears from the registry is reported in evidence (pair_member_missing), not as a violation.",
     },
+    "C05": {
+        "technique": "repetition and read-only properties over rapid-generated objects, rapid state machine for histories, fresh-process differential under generated environments, strace syscall monitor",
+        "level_text": "Four oracles: identical status+details over 12-40 repetitions on fresh parses; a memo-model state machine over lint/filter/reconfigure histories with re-used parsed objects; a reflect walk proving every exported field of the linted object equals an unlinted twin; digests from a fresh process equal in-process digests under generated environments, and no I/O system call starts inside the marked lint window of that process under strace.",
+        "level_note": "I/O and environment independence are observed on executed paths; the two time.Now() lints are compared within one run (same UTC day).",
+    },
+    "C10": {
+        "technique": "rapid-generated concurrent programs run under the Go race detector; differential against memoised sequential results; deadlock watchdog",
+        "level_text": "Generated multi-goroutine programs mixing Lint*Ex on distinct objects with registry reads and Filter on shared registries, run 3 times each under GOMAXPROCS 1/2/4/16 in a -race binary; any race report, panic, hang or concurrent result that differs from the sequential one is a violation. The corpus is walked round-robin so every lint body it reaches runs concurrently.",
+        "level_note": "Interleavings are sampled, not enumerated; a logic-only ordering bug without a data race may be missed.",
+    },
+    "C15": {
+        "technique": "differential CLI-vs-library over rapid-generated invocations of the real binary (encodings, deliveries, selections, outputs, failure injection)",
+        "level_text": "Hundreds (quick) to tens of thousands (thorough) of spawned zlint processes; stdout is decoded and compared result by result with the in-process library under the same selection and configuration, across encodings and deliveries; summary tables are parsed and counted; undecodable inputs and unknown selectors must give a non-zero exit and no result object beyond the inputs before the bad one.",
+        "level_note": "Spawn cost bounds the case count.",
+    },
 }
